@@ -168,7 +168,7 @@ Fixpoint pure_actions (acts : list act) (s : st) : st :=
   | a :: r =>
     pure_actions r
       match a with
-      | AMark k | AFail k | AMissing k | ASlow k _ => logo (OPAct k) s
+      | AMark k | AFail k | AMissing k | ASlow k _ | ADel k _ => logo (OPAct k) s
       | AAssign v z => logo (OPBuiltin 1) (with_ctx (ctx_set (s_ctx s) v z) s)
       | ARaise _ _ => logo (OPBuiltin 2) s
       | AEmit _ => logo (OPBuiltin 3) s
@@ -192,6 +192,8 @@ Fixpoint run_actions (eng : engine) (processing : bool) (acts : list act) (ev : 
         run_actions eng processing r ev (send_self eng {| e_type := ty; e_kind := EPlain; e_tag := tag |} s1)
     | ABadBuiltin k => (logo (OActErr k) s, None)
     | AEmit k => run_actions eng processing r ev (logo (OEmit k 1) (logo (OEmit k 0) s))
+    | ADel k v => run_actions eng processing r ev
+                    (with_ctx (filter (fun p => negb (Nat.eqb (fst p) v)) (s_ctx s)) (logo (OAct k (e_type ev) (e_tag ev)) s))
     | ASlow k d => run_actions eng processing r ev
                      (let s' := advance_busy eng d (logo (OAct k (e_type ev) (e_tag ev)) s) in logo (OClock (s_now s')) s')
     end
